@@ -341,3 +341,12 @@ Fixpoint py_depth (v : pyval) : nat :=
   | VRet x => S (py_depth x)
   | _ => O
   end.
+
+(** [isinstance(v, C)] for a user-defined class C: [yes] = the tags of the classes of the translated world that are C or
+    subclasses of it, [no] = those that are not; an object of any other class is refused *)
+Definition py_isinstance (v : pyval) (yes no : list string) : pyval :=
+  match v with
+  | VObj c _ => if existsb (String.eqb c) yes then VBool true else if existsb (String.eqb c) no then VBool false else VErr
+  | VNone | VBool _ | VInt _ | VStr _ | VTuple _ | VList _ | VSet _ | VDict _ => VBool false
+  | _ => VErr
+  end.
